@@ -123,7 +123,11 @@ func (c *c09Worker) Run(path []SOp) (bfs.Outcome, error) {
 		}
 	}
 	// Differential: a batch with distinct keys gives the verdicts of its entries submitted one at a time (every order).
-	if op.Kind == "atts" && distinct {
+	wellFormed := true
+	for _, e := range op.Ents {
+		wellFormed = wellFormed && model.WellFormedAtt(e.S, e.T)
+	}
+	if op.Kind == "atts" && distinct && wellFormed {
 		batchVerdict := make([]bool, len(op.Ents))
 		for i, e := range op.Ents {
 			batchVerdict[i] = releasedAt(tr.Released, last, e.Key, false)
@@ -218,6 +222,16 @@ func c09Ops(E []uint64, nkeys int) []SOp {
 	}
 	companions := [][2]uint64{{0, 1}, {1, 2}}
 	for _, p := range pairs {
+		for _, q := range companions {
+			ops = append(ops, SOp{Kind: "atts", Ents: []Ent{{Key: 0, S: p[0], T: p[1], Root: 1}, {Key: 1, ByKey: true, S: q[0], T: q[1], Root: 1}}})
+			ops = append(ops, SOp{Kind: "atts", Ents: []Ent{{Key: 1, S: q[0], T: q[1], Root: 2}, {Key: 0, S: p[0], T: p[1], Root: 2}}})
+		}
+	}
+	// Requests that are not well-formed (target not above source) are outside this property, but histories contain them:
+	// alone and inside a batch they are refused, and what they leave behind must not make a later advancing request fail
+	// (the batch path writes back the state of every entry, refused ones included - also for a key that never signed).
+	for _, p := range [][2]uint64{{3, 3}, {2, 1}} {
+		ops = append(ops, SOp{Kind: "att", Ents: []Ent{{Key: 0, S: p[0], T: p[1], Root: 1}}})
 		for _, q := range companions {
 			ops = append(ops, SOp{Kind: "atts", Ents: []Ent{{Key: 0, S: p[0], T: p[1], Root: 1}, {Key: 1, ByKey: true, S: q[0], T: q[1], Root: 1}}})
 			ops = append(ops, SOp{Kind: "atts", Ents: []Ent{{Key: 1, S: q[0], T: q[1], Root: 2}, {Key: 0, S: p[0], T: p[1], Root: 2}}})
